@@ -207,6 +207,16 @@ func genRT(tier string) []proto.RTItem {
 			items = append(items, proto.RTItem{Scn: r, Class: fmt.Sprintf("request/tcp-%s/fault-%s-%s", m, f.Op, f.Class)})
 		}
 	}
+	// the SACK methods against a target the connect to which fails - the port is closed (refused at once), the SYN is
+	// swallowed (the connect times out) -, and against one that completes the handshake without SACK: whatever the request
+	// answers (an error for `sack`, a SYN trace for `prefer_sack`), every handle it opened is closed once
+	for _, m := range []string{"sack", "prefer_sack"} {
+		for _, c := range []string{"closed", "syn-dropped", "no-sack-permitted", "no-handshake"} {
+			r := proto.RTScn{Hostname: "198.18.0.9", Protocol: "tcp", Method: m, MinTTL: 1, MaxTTL: 4, DelayMs: 10, TimeoutMs: 100, Queries: 1, E2e: 0, Dest: 3, UseListenerPort: true,
+				IPIDBase: 1000, EchoBase: 101, Capability: c}
+			items = append(items, proto.RTItem{Scn: r, Class: fmt.Sprintf("request/tcp-%s/target-%s", m, c), Note: map[string]string{"may_fail": "1"}})
+		}
+	}
 	// a request the variant cannot serve (TCP SYN to an IPv6 target): whatever it answers, every handle it opened is closed once
 	for _, m := range []string{"syn", "sack", "prefer_sack"} {
 		r := proto.RTScn{Hostname: "2001:db8::77", Protocol: "tcp", Method: m, MinTTL: 1, MaxTTL: 4, DelayMs: 10, TimeoutMs: 100, Queries: 1, E2e: 1, Dest: 3, IPIDBase: 1000, EchoBase: 101, WantV6: true}
